@@ -38,7 +38,10 @@ RULE = (
     'with layer patterns.  Oracle: (a) bpch1(noscale=True): variable names = '
     'category_tracername in file order, shapes (nt,nl,nj,ni), values '
     'bit-identical to the encoded REAL*4, tau0/tau1 bit-equal float64 (for '
-    'bpch1 and bpch2, scaled and unscaled; bpch2 time = tau0), tracerid, '
+    'bpch1 and bpch2, scaled and unscaled; bpch2 time = tau0; time_bounds '
+    '= the (tau0, tau1) pairs exactly and time within [tau0, tau1] wherever '
+    'a reader presents them, also after write -> read; 1-4 blocks, '
+    'contiguous, with gaps, or instantaneous), tracerid, '
     'category, base unit, grid header attributes, STARTI/J/K = offsets-1; '
     'writer output byte-identical to the input file.  (b) bpch1 scaled: '
     'values = raw x table scale (float32 product, rtol 1e-6, NaN==NaN), '
@@ -118,7 +121,7 @@ def payload(draw, n, mode):
 def cases(draw, tier='quick'):
     ni = draw(st.integers(1, 5))
     nj = draw(st.integers(1, 4))
-    nt = draw(st.sampled_from([1, 2, 2, 3, 3]))
+    nt = draw(st.sampled_from([1, 2, 2, 3, 3, 4]))
     ncat = draw(st.integers(1, 3))
     catnames = draw(st.permutations(CATS))[:ncat]
     cats = []
@@ -194,9 +197,12 @@ def cases(draw, tier='quick'):
     dt = draw(st.sampled_from([1.0, 24.0, 744.0, 0.5, 3.0, 1.0 / 3.0,
                                1.0 / 6.0, 1.0 / 60.0, 0.1]))
     inst = draw(st.sampled_from([False, False, False, True]))
+    # contiguous blocks, or blocks separated by a gap (e.g. one output
+    # hour per day)
+    gap = draw(st.sampled_from([0.0, 0.0, 1.0, 24.0, 1.0 / 3.0]))
     times = []
     for t in range(nt):
-        t0 = tau + t * dt
+        t0 = tau + t * (dt + gap)
         times.append([t0, t0 if inst else t0 + dt])
     mode = draw(st.sampled_from(['exact', 'exact', 'bits']))
     data = []
@@ -581,6 +587,9 @@ def check_case(spec):
         r.label('two-blocks-one-tracer')
     if any(t0 == t1 for t0, t1 in spec['times']):
         r.label('instantaneous')
+    if any(spec['times'][i + 1][0] != spec['times'][i][1]
+           for i in range(nt - 1)):
+        r.label('blocks-not-contiguous')
     allt = [t for tt in spec['times'] for t in tt]
     if any(float(np.float32(t)) != t for t in allt):
         r.label('tau-not-float32')
@@ -810,6 +819,23 @@ def check_tau(r, f, spec, clause, with_time=False):
             r.fail(clause + '-tau', '%s = %r (dtype %s), the block headers '
                    'hold %r' % (k, [repr(float(x)) for x in g8.ravel()],
                                 g.dtype, [repr(float(x)) for x in w]))
+    # every other time-related variable the reader presents
+    present = list(f.variables.keys())
+    pairs = np.array([[t[0], t[1]] for t in spec['times']], dtype='f8')
+    if 'time_bounds' in present:
+        ok, tb = guard(r, clause + '-timebounds', lambda: np.asarray(
+            f.variables['time_bounds'][...], dtype='f8'))
+        if ok and (tb.shape != pairs.shape or
+                   tb.tobytes() != pairs.tobytes()):
+            r.fail(clause + '-timebounds', 'time_bounds = %r, the blocks '
+                   'have (tau0, tau1) = %r' % (tb.tolist(), pairs.tolist()))
+    if 'time' in present:
+        ok, tv = guard(r, clause + '-time', lambda: np.asarray(
+            f.variables['time'][...], dtype='f8'))
+        if ok and (tv.shape != (len(pairs),) or not (
+                (tv >= pairs[:, 0]) & (tv <= pairs[:, 1])).all()):
+            r.fail(clause + '-time', 'time = %r does not lie in the blocks\' '
+                   '[tau0, tau1] = %r' % (tv.tolist(), pairs.tolist()))
 
 
 def check_meta(r, f, spec, exp, clause):
@@ -934,6 +960,7 @@ def check_reread(r, spec, exp, f1, f2):
         if _s(getattr(b, 'units', '')) != e['row']['unit']:
             r.fail('reread-units', '%s: units %r, expected %r' % (
                 e['key'], getattr(b, 'units', None), e['row']['unit']))
+    check_tau(r, f2, spec, 'reread')
     ok, taus = guard(r, 'reread-tau', lambda: [
         np.asarray(f.variables[k][...]) for f in (f1, f2)
         for k in ('tau0', 'tau1')])
